@@ -1,11 +1,16 @@
 #!/usr/bin/env python3
 """Line-JSON worker exposing the Python bindings to the Rust harness (C03 header leg, C04 Python leg)."""
-import json, os, sys
+import json, math, os, sys
 
 sys.path.insert(0, os.environ.get("VERIF_PYDIR", "/verif/.build/py"))
 import pykmertools as pk  # noqa: E402
 
 computers = {}
+
+
+def fin(v):
+    """JSON has no NaN / infinity: they travel as text (the harness reads any non-number as NaN)"""
+    return [x if math.isfinite(x) else repr(x) for x in v]
 
 
 def get_seq(req, enc="utf-8"):
@@ -42,10 +47,10 @@ for line in sys.stdin:
             resp = {"ok": oc.get_header()}
         elif req["op"] == "oligo":
             seq = get_seq(req)
-            resp = {"ok": oc.vectorise_one(seq, req["norm"])}
+            resp = {"ok": fin(oc.vectorise_one(seq, req["norm"]))}
         elif req["op"] == "oligo_batch":
             seqs = [bytes.fromhex(s).decode("utf-8") for s in req["seqs"]]
-            resp = {"ok": oc.vectorise_batch(seqs, req["norm"])}
+            resp = {"ok": [fin(r) for r in oc.vectorise_batch(seqs, req["norm"])]}
         elif req["op"] == "kmers":
             seq = get_seq(req)
             resp = {"ok": [list(t) for t in pk.KmerGenerator(seq, k)]}
@@ -123,12 +128,40 @@ for line in sys.stdin:
             counts = [sum(1 for _ in pk.KmerGenerator(b.decode("utf-8"), k)) for b in bs]
             mcounts = [sum(1 for _ in pk.MinimiserGenerator(b.decode("utf-8"), req["w"], req["m"])) for b in bs]
             resp = {"ok": [[ks[i], ms[i], counts[i], mcounts[i]] for i in range(len(bs))]}
+        elif req["op"] == "py_session":
+            # one iterator object driven by a script: ["next", n] | ["list"] | ["iter"] | ["for", n] (loop left after n items)
+            seq = get_seq(req)
+            g = pk.KmerGenerator(seq, k) if req["kind"] == "kmer" else pk.MinimiserGenerator(seq, req["w"], req["m"])
+            out = []
+            for step in req["script"]:
+                got = []
+                if step[0] == "next":
+                    for _ in range(step[1]):
+                        try:
+                            got.append(list(next(g)))
+                        except StopIteration:
+                            got.append(None)
+                            break
+                elif step[0] == "list":
+                    got = [list(t) for t in g]
+                elif step[0] == "iter":
+                    it = iter(g)
+                    got = [it is g]
+                elif step[0] == "for":
+                    n = 0
+                    for t in g:
+                        got.append(list(t))
+                        n += 1
+                        if n >= step[1]:
+                            break
+                out.append(got)
+            resp = {"ok": out}
         elif req["op"] == "acgt":
             resp = {"ok": [pk.KmerGenerator("", k).to_acgt(req["x"]), pk.MinimiserGenerator("", k, k).to_acgt(req["x"])]}
         elif req["op"] == "cgr":
             seq = get_seq(req)
             try:
-                resp = {"ok": [list(p) for p in pk.CgrComputer(req["s"]).vectorise_one(seq)]}
+                resp = {"ok": [fin(p) for p in pk.CgrComputer(req["s"]).vectorise_one(seq)]}
             except ValueError as e:
                 resp = {"value_error": str(e)}
         else:
